@@ -221,8 +221,14 @@ func main() {
 	}
 	run := ev.Start("C18", "model_checking")
 	spec.MaxDepth = len(W.Events) + 1
-	st := xplore.BFS(run, spec)
-	nest(run, spec, thorough)
+	var st xplore.Stats
+	if os.Getenv("VERIF_C18_PART") == "concurrent" {
+		// developer switch: only the interleaving part (the run is reported as not exhaustive)
+		run.Capped("VERIF_C18_PART=concurrent: search parts skipped")
+	} else {
+		st = xplore.BFS(run, spec)
+		nest(run, spec, thorough)
+	}
 	saved := W
 	concurrent(run, thorough)
 	W = saved
